@@ -50,9 +50,64 @@ type c40Env struct {
 	ctx     context.Context
 }
 
+// c40FaultStore is a part-store double over the filesystem store: the reader of ONE armed part
+// fails after `at` bytes, and it fails the way decoding readers do — the Read call that reaches
+// that position returns the bytes up to it TOGETHER with the error (n > 0, err != nil, err != EOF).
+type c40FaultStore struct {
+	partstore.PartStore
+	armed bool
+	id    partstore.PartId
+	at    int
+}
+
+var errC40Injected = errors.New("c40: injected part read fault")
+
+func (f *c40FaultStore) Capabilities() partstore.Capabilities { return partstore.CapabilitiesOf(f.PartStore) }
+
+func (f *c40FaultStore) GetPart(ctx context.Context, tx database.Tx, id partstore.PartId) (io.ReadCloser, error) {
+	rc, err := f.PartStore.GetPart(ctx, tx, id)
+	if err != nil || !f.armed || id != f.id {
+		return rc, err
+	}
+	return &c40FaultReader{rc: rc, remaining: f.at}, nil
+}
+
+type c40FaultReader struct {
+	rc        io.ReadCloser
+	remaining int
+	failed    bool
+}
+
+func (r *c40FaultReader) Read(p []byte) (int, error) {
+	if r.failed {
+		return 0, errC40Injected
+	}
+	if len(p) >= r.remaining {
+		n, _ := io.ReadFull(r.rc, p[:r.remaining])
+		r.failed = true
+		return n, errC40Injected
+	}
+	n, err := r.rc.Read(p)
+	r.remaining -= n
+	return n, err
+}
+
+func (r *c40FaultReader) Close() error { return r.rc.Close() }
+
 func newC40Env(scratch, kind string) *c40Env {
-	st := verifx.NewStack(filepath.Join(scratch, "c40-"+kind), verifx.StackOpts{PartKind: kind, NoStart: true,
-		StorageOptions: []metadatapart.StorageOption{metadatapart.WithGCGraceWindow(time.Nanosecond)}})
+	opts := verifx.StackOpts{PartKind: kind, NoStart: true,
+		StorageOptions: []metadatapart.StorageOption{metadatapart.WithGCGraceWindow(time.Nanosecond)}}
+	var fault *c40FaultStore
+	switch kind {
+	case "fsf": // filesystem store behind the fault-injecting double
+		opts.PartKind = "fs"
+		opts.WrapPartStore = func(db database.Database, ps partstore.PartStore) partstore.PartStore {
+			fault = &c40FaultStore{PartStore: ps}
+			return fault
+		}
+	}
+	st := verifx.NewStack(filepath.Join(scratch, "c40-"+kind), opts)
+	defer func() { c40Faults[kind] = fault }()
 	coll, ok := metadatapart.VerifGarbageCollector(st.Storage)
 	if !ok {
 		verifx.Fatalf("c40: storage has no verif GC accessor")
@@ -70,6 +125,8 @@ func newC40Env(scratch, kind string) *c40Env {
 	return e
 }
 
+var c40Faults = map[string]*c40FaultStore{}
+
 type c40Case struct {
 	stack  string
 	ver    string
@@ -85,6 +142,14 @@ type c40Case struct {
 	// renames, before/after tx.Commit, before each after-commit hook) while the download is drained
 	hold   string
 	holdAt int
+	// fault: "err" = the part-store double fails the reader of part faultPart after faultAt bytes
+	// (data and error in one Read call)
+	fault     string
+	faultPart int
+	faultAt   int
+	// multi: a two-range GetObject [0,lo) + [lo,hi); the first reader is read a little and closed
+	// TWICE (defer + explicit Close) before the script runs; the case describes the SECOND reader
+	multi bool
 }
 
 func c40ErrKind(err error) string {
@@ -97,6 +162,8 @@ func c40ErrKind(err error) string {
 		return "UnexpectedEOF"
 	case errors.Is(err, partstore.ErrPartNotFound):
 		return "PartNotFound"
+	case errors.Is(err, errC40Injected):
+		return "Injected"
 	case errors.Is(err, sql.ErrTxDone):
 		return "TxDone"
 	case errors.Is(err, context.DeadlineExceeded):
@@ -135,7 +202,7 @@ func (e *c40Env) partStates(ids []partstore.PartId, orig [][]byte) string {
 			}
 		}
 	}
-	if e.kind == "fs" {
+	if e.kind != "sql" {
 		check(nil)
 	} else {
 		_ = database.WithTx(e.ctx, e.st.DB, &sql.TxOptions{ReadOnly: true}, func(ctx context.Context, tx database.Tx) error {
@@ -169,7 +236,11 @@ func (e *c40Env) run(out *verifx.Out, k int, seed uint64, c *c40Case) {
 	if c.hold != "" {
 		holdTok = fmt.Sprintf("%s@%d", c.hold, c.holdAt)
 	}
-	out.Line("cfg stack=%s ver=%s build=%s sizes=%s range=%s k=%d chunk=%d script=%s hold=%s", c.stack, c.ver, c.build, strings.Join(sz, ","), rng, c.k, c.chunk, script, holdTok)
+	faultTok := "~"
+	if c.fault != "" {
+		faultTok = fmt.Sprintf("%s@%d:%d", c.fault, c.faultPart, c.faultAt)
+	}
+	out.Line("cfg stack=%s ver=%s build=%s sizes=%s range=%s k=%d chunk=%d script=%s hold=%s fault=%s multi=%d", c.stack, c.ver, c.build, strings.Join(sz, ","), rng, c.k, c.chunk, script, holdTok, faultTok, b2i(c.multi))
 	defer out.End()
 	defer func() {
 		if p := recover(); p != nil {
@@ -223,12 +294,28 @@ func (e *c40Env) run(out *verifx.Out, k int, seed uint64, c *c40Case) {
 		ranges = []storage.ByteRange{{Start: &lo, End: &hi}}
 		want = content[c.lo:c.hi]
 	}
+	switch c.fault {
+	case "err":
+		f := c40Faults[e.kind]
+		f.id, f.at, f.armed = ids[c.faultPart], c.faultAt, true
+		defer func() { f.armed = false }()
+	}
+	if c.multi {
+		zero, lo := int64(0), int64(c.lo)
+		ranges = append([]storage.ByteRange{{Start: &zero, End: &lo}}, ranges...)
+	}
 	obj, readers, err := st.GetObject(ctx, bucket, key, ranges, nil)
-	if err != nil || len(readers) != 1 {
+	if err != nil || len(readers) != len(ranges)+b2i(len(ranges) == 0) {
 		out.Line("getobject err=%s readers=%d", c40ErrKind(err), len(readers))
 		return
 	}
-	rd := readers[0]
+	rd := readers[len(readers)-1]
+	if c.multi {
+		first := make([]byte, 5)
+		nf, ferr := io.ReadFull(readers[0], first)
+		c1, c2 := readers[0].Close(), readers[0].Close()
+		out.Line("first n=%d err=%s close1=%s close2=%s", nf, c40ErrKind(ferr), c40ErrKind(c1), c40ErrKind(c2))
+	}
 	out.Line("resolved %s", verifx.Hex(want))
 
 	// phase 1: consume k bytes
@@ -381,7 +468,13 @@ func (e *c40Env) run(out *verifx.Out, k int, seed uint64, c *c40Case) {
 			finishHold()
 		}
 	}()
-	out.Line("parts %s", e.partStates(ids, parts))
+	if f := c40Faults[e.kind]; f != nil && c.fault == "err" {
+		f.armed = false // observe the store itself, not the injected fault
+		out.Line("parts %s", e.partStates(ids, parts))
+		f.armed = true
+	} else {
+		out.Line("parts %s", e.partStates(ids, parts))
+	}
 
 	// phase 2: drain
 	term := "~"
@@ -521,6 +614,26 @@ func runC40(args []string) {
 					}
 				}
 			}
+		}
+	}
+	// a part reader that fails in the middle of a part and hands out data and error in ONE Read call
+	// (what decoding readers do); small and large caller buffers; incl. the last byte of a part and
+	// the last part
+	for pi := 0; pi < 3; pi++ {
+		for _, at := range []int{0, 1, sizes[pi] / 2, sizes[pi] - 1} {
+			for _, chunk := range []int{16, 65536} {
+				for _, k := range []int{0, b1} {
+					cases = append(cases, &c40Case{stack: "fsf", ver: "off", sizes: sizes, lo: 0, hi: -1, k: k, chunk: chunk, build: "app",
+						fault: "err", faultPart: pi, faultAt: at})
+				}
+			}
+		}
+	}
+	// a multi-range download whose first reader is closed twice: the second range must still be
+	// served (SQL: in full, whatever happens to the object meanwhile)
+	for _, stack := range []string{"sql", "fs"} {
+		for _, sc := range [][]string{{}, {"ow"}, {"del"}, {"ow", "gc"}} {
+			cases = append(cases, &c40Case{stack: stack, ver: "off", sizes: sizes, lo: b1, hi: b1 + sizes[1] + sizes[2], k: 3, chunk: 16, build: "app", script: sc, multi: true})
 		}
 	}
 	nExh := len(cases)
